@@ -134,6 +134,32 @@ CLAIMED.update({
     ),
 })
 
+CLAIMED.update({
+    "C13": dict(
+        category="other", design_ref="DESIGN.md §5 C13",
+        text="Kernel: the cron decision function is proved equal to the spec written from the statement under the croniter schedule axioms; the compare-and-swap on "
+             "the last cron execution and the trigger-run claim are proved for the Mem store (incl. lock ownership) and as SQL glue incl. BEGIN IMMEDIATE ownership for "
+             "SQLite. Three genuine defects are known findings with replays on the real code (minute precision of croniter.match; k pending occurrences collapsed / "
+             "launched with the first occurrence's arguments). trigger_loop_iteration itself is only in bounded scenarios.",
+        technique="contract-based deductive verification (assumed croniter contract with conformance test, lock/transaction ownership) + bounded loop scenarios",
+    ),
+    "C15": dict(
+        category="other", design_ref="DESIGN.md §5 C15",
+        text="compute_args_id is proved (SMT strings/sequences) to be sha256 of the encoding of ALL pairs in sorted-key order, a function of the mapping, 'no_args' when "
+             "empty; the encoding step is proved injective from the assumed json.dumps contract; _generate_key content-addresses the whole value; size routing and "
+             "resolve(serialize(x)) = x are proved over an abstract store with content-addressing and LRU invariants. Third-party serializers and call spellings are "
+             "bounded. One known finding (strings starting with the reserved prefix do not round-trip).",
+        technique="contract-based deductive verification over SMT strings/sequences + bounded stand-ins for third-party round trips",
+    ),
+    "C18": dict(
+        category="other", design_ref="DESIGN.md §5 C18",
+        text="Proved: sequence numbers 1,2,3.. per operation and executor; the executor a task body gets belongs to the workflow of the CURRENT invocation, starts at "
+             "position 0 for a new execution and is reused within one execution (the cache invariant that the unfixed code violated). Record-or-replay of the "
+             "dynamically typed operations is bounded (fresh executor over recorded data, two workflows, the same task for two workflows through the real runner).",
+        technique="contract-based deductive verification of the counter and the executor cache invariant + bounded record-or-replay runs on both backends",
+    ),
+})
+
 NOT_YET = {}
 
 
